@@ -13,6 +13,11 @@ from vt.common import thermo_of, stream_invariant
 PID = 'C11'
 RULE = ('histories of 5-40 steps on one single- or multi-phase stream (5 chemicals, phases l/g/L) mixing view writes (imol/imass/ivol by key, set_flow in 8 units, F_mol/F_mass/F_vol, set_total_flow) '
         'with changes of T, P, phase, phases, link_with(all flag subsets)/unlink with a partner stream, copy_like, property-package reset, scale and mixing; the view relations are evaluated after every step. '
+        'Added: start streams built through the constructors in a random unit (chemical flows, flow=array, total_flow), an optional phase-locked sixth chemical (N2 locked to gas), solid phases, '
+        'Indexer.get_data/set_data in units (one key, key tuple, whole array), writes through the array views mol/mass/vol (item, slice, property setter; through a phase view on multi-phase streams), '
+        'key forms (ID tuple, ellipsis, phase only, (phase, IDs), ID only on a multi-phase stream = documented refusal on write and phase-summed read), zero values in every write and totals set to 0 / set on an empty stream, '
+        'multi->single collapse (phase=, one-letter phases=, as_stream, reduce_phases), a third observer (proxy / flow_proxy / phase view / copy) checked and written through, reverse-direction links, copy_flow, '
+        'get_data/set_data, temporary() and temporary_phase() contexts, reset_flow in units, and dimension rejection through get_flow/set_flow/set_total_flow/constructor/reset_flow/Indexer.get_data/set_data with near-miss units. '
         'non-trivial = >=2 chemicals flowing at some check and >=1 structural change (T/P/phase/phases/link/unlink/package) in the history; distinct = hash of the history')
 MIN_NONTRIVIAL = {'quick': 300, 'thorough': 10000}
 ASSUMPTIONS = ['molar volumes are read from the Chemical objects (Chemical.V(phase, T, P)); the check judges the wiring of the views, not the volume models',
@@ -22,11 +27,34 @@ PERM = ('Octane', 'Water', 'Acetone', 'Ethanol', 'Methanol')
 FACT = {'kmol/hr': ('mol', 1.0), 'mol/s': ('mol', 1000. / 3600.), 'kg/hr': ('mass', 1.0), 'lb/hr': ('mass', 1. / 0.45359237), 'g/min': ('mass', 1000. / 60.),
         'm3/hr': ('vol', 1.0), 'L/min': ('vol', 1000. / 60.), 'gal/min': ('vol', 1. / 0.003785411784 / 60.)}
 BAD_UNITS = ('m', 'kg', 'K', 'm2/s', 'J/hr')
+# near misses: the amount without the time, the time without the amount, a flux, a density
+NEAR_MISS = ('kmol', 'mol', 'm3', 'L', 'lb', 'kg/m3', 'kmol/hr/m2', 'hr', '1/hr', 'kmol/m3', 'kg*hr', 'm3/hr**2')
+BAD_FORMS = ('get_total_flow', 'get_flow', 'set_flow', 'set_total_flow', 'ctor', 'reset_flow', 'idx-get', 'idx-set', 'view-get', 'view-set')
+IDS6 = IDS + ('N2',)
+PERM6 = ('Octane', 'N2', 'Water', 'Acetone', 'Ethanol', 'Methanol')
+UNITS_OF = {'mol': [u for u, (n, f) in FACT.items() if n == 'mol'], 'mass': [u for u, (n, f) in FACT.items() if n == 'mass'], 'vol': [u for u, (n, f) in FACT.items() if n == 'vol']}
+_locked = {}
+
+
+def thermo_locked(ids):
+    """Thermo over ids where N2 is locked to the gas phase (single-phase volume model: the non-PhaseHandle branch of the volumetric view)."""
+    key = tuple(ids)
+    th = _locked.get(key)
+    if th is None:
+        chems = [tmo.Chemical('N2', phase='g', cache=True) if i == 'N2' else tmo.Chemical(i, cache=True) for i in ids]
+        th = tmo.Thermo(tmo.Chemicals(chems))
+        _locked[key] = th
+    return th
 
 
 def required(tier):
     return ['mass-view', 'vol-view', 'totals', 'round-trip', 'unit-factor', 'total-keeps-composition', 'dimension-rejected', 'after:phase', 'after:phases', 'after:link', 'after:unlink',
-            'after:package', 'after:copy_like', 'after:T', 'multi-phase']
+            'after:package', 'after:copy_like', 'after:T', 'multi-phase',
+            # added branches
+            'ctor:units', 'ctor:total', 'locked-chemical', 'idx-units:one', 'idx-units:tuple', 'idx-units:whole', 'arr:item', 'arr:slice', 'arr:setter', 'arr:phase-view',
+            'key:tuple', 'key:ellipsis', 'key:phase-only', 'key:id-only-read', 'zero-write', 'total:zero', 'total:on-empty', 'after:collapse', 'phase:solid',
+            'observer:proxy', 'observer:flow_proxy', 'observer:view', 'observer:copy', 'observer-write', 'after:rlink', 'after:copy_flow', 'after:set_data', 'after:temporary', 'after:reset_flow',
+            'baddim:get_flow', 'baddim:set_flow', 'baddim:set_total_flow', 'baddim:ctor', 'baddim:idx-get', 'baddim:idx-set', 'baddim:view-get', 'baddim:view-set', 'baddim:near-miss']
 
 
 def Vi(chem, phase, T, P):
@@ -55,6 +83,7 @@ def check_views(s, rec, where):
         mass = dense2(s.imass.data); vol = dense2(s.ivol.data)
         mass1 = np.asarray(s.mass.to_array() if hasattr(s.mass, 'to_array') else s.mass, float)
         vol1 = np.asarray(s.vol.to_array() if hasattr(s.vol, 'to_array') else s.vol, float)
+        mol1 = np.asarray(s.mol.to_array() if hasattr(s.mol, 'to_array') else s.mol, float)
         Fmol, Fmass, Fvol = s.F_mol, s.F_mass, s.F_vol
     except Exception as e:
         rec.exception('views', e, what=f'reading the views after {where} raised {type(e).__name__}: {str(e)[:150]}'); return False
@@ -70,6 +99,11 @@ def check_views(s, rec, where):
         for j, c in enumerate(chems):
             if r[j]: evol[k, j] = r[j] * 1000. * (c.V(p, T, P) if hasattr(c.V, 'l') else c.V(T, P))     # phase-locked chemicals carry a single-phase model
     ok &= rec.check(np.allclose(vol, evol, rtol=1e-11, atol=0), 'vol-view', f'after-{where}', f'after {where}: ivol {vol.tolist()} != mol*V_i(phase={"/".join(p for p, _ in rows)},T={T},P={P}) {evol.tolist()}')
+    # added: the array views stream.vol and stream.mol (per chemical, summed over the phases on a multi-phase stream)
+    ok &= rec.check(vol1.shape[-1:] == evol.shape[-1:] and np.allclose(np.atleast_2d(vol1).sum(0) if vol1.ndim == 2 else vol1, evol.sum(0), rtol=1e-11, atol=0), 'vol-view', f'summed/after-{where}',
+                    f'after {where}: stream.vol {vol1.tolist()} != sum over phases of mol*V_i {evol.sum(0).tolist()}')
+    ok &= rec.check(mol1.shape[-1:] == mol.shape[-1:] and np.allclose(np.atleast_2d(mol1).sum(0) if mol1.ndim == 2 else mol1, mol.sum(0), rtol=1e-12, atol=0), 'mol-view', f'summed/after-{where}',
+                    f'after {where}: stream.mol {mol1.tolist()} != sum over phases of the molar data {mol.sum(0).tolist()}')
     ok &= rec.check(abs(Fmol - mol.sum()) <= 1e-12 * mol.sum() and abs(Fmass - emass.sum()) <= 1e-12 * emass.sum() and abs(Fvol - evol.sum()) <= 1e-10 * evol.sum(), 'totals',
                     f'after-{where}', f'after {where}: F_mol,F_mass,F_vol = {Fmol},{Fmass},{Fvol} but sums of the views are {mol.sum()},{emass.sum()},{evol.sum()}')
     return ok
@@ -81,21 +115,61 @@ def gen_case(rng):
     def flows(): return [0.0 if rng.random() < 0.3 else round(10 ** rng.uniform(-2, 3), 4) for _ in range(n)]
     start = {'multi': multi, 'T': round(rng.uniform(290, 360), 2), 'P': rng.choice([101325., 5e4, 3e5]),
              'phase': rng.choice('lg'), 'phases': rng.choice(['lg', 'lL', 'glL']), 'flows': [flows() for _ in range(3)]}
+    # added: phase-locked sixth chemical, solid phases, construction through the constructors in a unit of measure
+    start['locked'] = rng.random() < 0.3
+    start['flows6'] = [0.0 if rng.random() < 0.4 else round(10 ** rng.uniform(-2, 3), 4) for _ in range(3)]
+    if rng.random() < 0.15: start['phase'] = 's'
+    if rng.random() < 0.15: start['phases'] = rng.choice(['ls', 'gls', 'lgsL'])
+    start['ctor'] = rng.choice(list(FACT)) if rng.random() < 0.5 else None
+    start['ctor_form'] = rng.choice(['kw', 'kw', 'flow'])
+    start['ctor_total'] = round(10 ** rng.uniform(-2, 3), 4) if rng.random() < 0.35 else None
+    nn = n + 1
     steps = []
     for _ in range(rng.randrange(5, 41)):
-        t = rng.choices(['imol', 'imass', 'ivol', 'set_flow', 'F', 'set_total', 'T', 'P', 'phase', 'phases', 'link', 'unlink', 'copy_like', 'package', 'scale', 'mix', 'baddim', 'partner-write'],
-                        [3, 4, 4, 5, 3, 3, 3, 2, 3, 2, 3, 2, 1, 1, 1, 1, 1, 2])[0]
+        t = rng.choices(['imol', 'imass', 'ivol', 'set_flow', 'F', 'set_total', 'T', 'P', 'phase', 'phases', 'link', 'unlink', 'copy_like', 'package', 'scale', 'mix', 'baddim', 'partner-write',
+                         'idx-units', 'arr', 'keyed', 'F0', 'F-empty', 'collapse', 'observer', 'obs-write', 'rlink', 'copy_flow', 'data', 'temporary', 'reset_flow'],
+                        [3, 4, 4, 5, 3, 3, 3, 2, 3, 2, 3, 2, 1, 1, 1, 1, 2, 2,
+                         4, 4, 4, 0.5, 0.3, 0.7, 1.5, 1.5, 1, 1, 0.7, 0.7, 0.7])[0]
         st = {'t': t, 'i': rng.randrange(n), 'k': rng.randrange(100), 'v': round(10 ** rng.uniform(-2, 3), 4)}
-        if t == 'set_flow': st['units'] = rng.choice(list(FACT)); st['read'] = rng.choice(list(FACT)); st['key'] = rng.choice(['one', 'all', 'two'])
+        if start['locked'] and rng.random() < 0.25: st['i'] = n          # the locked chemical
+        if t in ('imol', 'imass', 'ivol', 'set_flow', 'idx-units', 'arr', 'keyed', 'obs-write') and rng.random() < 0.1: st['v'] = 0.0     # boundary: the entry must vanish through the view
+        if t == 'set_flow': st['units'] = rng.choice(list(FACT)); st['read'] = rng.choice(list(FACT)); st['key'] = rng.choice(['one', 'all', 'two', 'phase'])
         if t == 'F': st['which'] = rng.choice(['F_mol', 'F_mass', 'F_vol'])
         if t == 'set_total': st['units'] = rng.choice(list(FACT))
         if t == 'T': st['v'] = round(rng.uniform(290, 360), 2)
         if t == 'P': st['v'] = rng.choice([101325., 5e4, 3e5, 2e5])
-        if t == 'phase': st['v'] = rng.choice('lg')
-        if t == 'phases': st['v'] = rng.choice(['lg', 'lL', 'glL', 'gL'])
+        if t == 'phase': st['v'] = rng.choice('lgls')
+        if t == 'phases': st['v'] = rng.choice(['lg', 'lL', 'glL', 'gL', 'ls', 'gs'])
         if t == 'link': st['flags'] = [rng.random() < 0.6, rng.random() < 0.6, rng.random() < 0.6]
-        if t == 'baddim': st['units'] = rng.choice(BAD_UNITS)
+        if t == 'rlink': st['flags'] = [rng.random() < 0.6, rng.random() < 0.6, rng.random() < 0.6]
+        if t == 'baddim':
+            st['form'] = rng.choice(BAD_FORMS)
+            if st['form'] in ('view-get', 'view-set'):
+                # a proper flow unit of another dimension than the view it is offered to
+                st['view'] = rng.choice(['imol', 'imass', 'ivol'])
+                dim = {'imol': 'mol', 'imass': 'mass', 'ivol': 'vol'}[st['view']]
+                st['units'] = rng.choice([u for u, (nm, f) in FACT.items() if nm != dim])
+            else:
+                st['units'] = rng.choice(BAD_UNITS + NEAR_MISS)
+                st['view'] = rng.choice(['imol', 'imass', 'ivol'])
+        if t == 'idx-units':
+            st['view'] = rng.choice(['imol', 'imass', 'ivol']); dim = {'imol': 'mol', 'imass': 'mass', 'ivol': 'vol'}[st['view']]
+            st['units'] = rng.choice(UNITS_OF[dim]); st['read'] = rng.choice(UNITS_OF[dim]); st['form'] = rng.choice(['one', 'tuple', 'whole'])
+        if t == 'arr':
+            st['view'] = rng.choice(['mol', 'mass', 'vol']); st['form'] = rng.choice(['item', 'item', 'slice', 'setter'])
+        if t == 'keyed':
+            st['view'] = rng.choice(['imol', 'imass', 'ivol']); st['form'] = rng.choice(['tuple', 'ellipsis', 'phase', 'id-only'])
+        if t in ('F0', 'F-empty'):
+            st['which'] = rng.choice(['F_mol', 'F_mass', 'F_vol', 'set_total']); st['units'] = rng.choice(list(FACT))
+        if t == 'collapse': st['form'] = rng.choice(['phase=', 'phases=1', 'as_stream', 'reduce_phases']); st['p'] = rng.choice('lgs')
+        if t == 'observer': st['kind'] = rng.choice(['proxy', 'flow_proxy', 'view', 'copy'])
+        if t == 'obs-write': st['view'] = rng.choice(['imol', 'imass', 'ivol'])
+        if t == 'copy_flow': st['form'] = rng.choice(['all', 'one', 'exclude'])
+        if t == 'temporary': st['T'] = round(rng.uniform(290, 360), 2)
+        if t == 'reset_flow': st['units'] = rng.choice(list(FACT)); st['total'] = rng.random() < 0.4; st['p'] = rng.choice(['l', 'g', None])
         steps.append(st)
+    if rng.random() < 0.04:
+        steps.append({'t': 'tmp-phase', 'i': 0, 'k': 0, 'v': 1.0, 'p': rng.choice('lg')})
     return {'start': start, 'steps': steps}
 
 
@@ -110,23 +184,109 @@ def build(start, th, which=0):
         s = tmo.Stream(None, phase=start['phase'], T=start['T'], P=start['P'], thermo=th)
         for i, v in zip(IDS, start['flows'][which]):
             if v: s.imol[i] = v
+    if start.get('locked'):
+        # the phase-locked chemical
+        v = start['flows6'][which]
+        if v and start['multi']: s.imol[s.phases[-1], 'N2'] = v
+        elif v: s.imol['N2'] = v
     return s
+
+
+def build_in_units(start, th, rec):
+    """added: the start stream built through the public constructors in a unit of measure; what was written is read back in the same unit."""
+    u = start['ctor']; dim, f = FACT[u]
+    tot = start.get('ctor_total')
+    cids = th.chemicals.IDs
+    kind = 'multi' if start['multi'] else 'single'
+    if start['multi']:
+        order = tmo.MultiStream(None, phases=tuple(start['phases']), thermo=th).phases
+        given = {}
+        for p, row in zip(order, start['flows']):
+            items = [(i, v) for i, v in zip(IDS, row) if v]
+            if items: given[p] = items
+        if start.get('locked') and start['flows6'][0]: given.setdefault(order[-1], []).append(('N2', start['flows6'][0]))
+        if not given: tot = None
+        s = tmo.MultiStream(None, phases=tuple(start['phases']), T=start['T'], P=start['P'], thermo=th, units=u, total_flow=tot, **given)
+        wrote = {(p, i): v for p, items in given.items() for i, v in items}
+        read = {key: s.get_flow(u, key) for key in wrote}
+    else:
+        row = [v for v in start['flows'][0]] + ([start['flows6'][0]] if start.get('locked') else [])
+        full = dict(zip(IDS6, row))
+        given = {i: v for i, v in full.items() if v}
+        if not given: tot = None
+        if start.get('ctor_form') == 'flow':
+            s = tmo.Stream(None, flow=[full.get(i, 0.0) for i in cids], phase=start['phase'], T=start['T'], P=start['P'], thermo=th, units=u, total_flow=tot)
+            kind = 'single-flow-array'
+        else:
+            s = tmo.Stream(None, phase=start['phase'], T=start['T'], P=start['P'], thermo=th, units=u, total_flow=tot, **given)
+        wrote = dict(given)
+        read = {key: s.get_flow(u, key) for key in wrote}
+    rec.hit('ctor:units')
+    if tot is None:
+        bad = {str(k): (v, read[k]) for k, v in wrote.items() if abs(read[k] - v) > 1e-12 * v}
+        rec.check(not bad, 'round-trip', f'ctor/{dim}/{kind}', f'constructor given flows in {u} reads back (written, read) {bad}')
+    else:
+        rec.hit('ctor:total')
+        back = s.get_total_flow(u)
+        rec.check(abs(back - tot) <= 1e-10 * tot, 'round-trip', f'ctor-total/{dim}/{kind}', f'constructor given total_flow={tot} with units={u!r} has get_total_flow({u!r}) = {back}')
+        sm = sum(wrote.values()); sr = sum(read.values())
+        bad = {str(k): (v / sm, read[k] / sr) for k, v in wrote.items() if abs(read[k] / sr - v / sm) > 1e-10 * abs(v / sm)} if sr else {'all': 'no flow'}
+        rec.check(not bad, 'total-keeps-composition', f'ctor-total/{dim}/{kind}', f'constructor given total_flow={tot} {u}: the fractions of the flows in {u} are not the given proportions (expected, read) {bad}')
+    return s
+
+
+def dense(x):
+    return np.asarray(x.to_array() if hasattr(x, 'to_array') else x, float)
+
+
+def expect_rejected(rec, k, form, units, call, s):
+    """added: a dimensionally inconsistent unit offered to `call` must be rejected; a rejected write leaves the flows as they were."""
+    before = [r.copy() for _, r in rows_of(s)]
+    try:
+        call()
+        rec.check(False, 'dimension-rejected', f'{form}/{units}', f'step {k}: {form} with units {units!r} was accepted')
+    except DimensionError:
+        rec.ok('dimension-rejected')
+    except Exception as e:
+        if 'Dimension' in type(e).__name__: rec.ok('dimension-rejected')
+        elif 'Undefined' in type(e).__name__: rec.ok('dimension-rejected'); rec.refuse(f'rejected through {type(e).__name__}')
+        else: raise
+    after = [r for _, r in rows_of(s)]
+    same = len(before) == len(after) and all(np.array_equal(x, y) for x, y in zip(before, after))
+    rec.check(same, 'dimension-rejected', f'state-changed/{form}', f'step {k}: {form} with units {units!r} changed the flows from {[x.tolist() for x in before]} to {[y.tolist() for y in after]}')
+    rec.hit('baddim:' + form)
+    if units in NEAR_MISS: rec.hit('baddim:near-miss')
 
 
 def run_case(case, rec):
     rec.begin_case(case)
-    th = thermo_of(IDS); th2 = thermo_of(PERM)
-    s = build(case['start'], th); partner = build(case['start'], th, 1)
-    linked = False
+    start = case['start']
+    locked6 = bool(start.get('locked'))
+    if locked6: th = thermo_locked(IDS6); th2 = thermo_locked(PERM6); rec.hit('locked-chemical')
+    else: th = thermo_of(IDS); th2 = thermo_of(PERM)
+    CIDS = IDS6 if locked6 else IDS
+    try:
+        s = build_in_units(start, th, rec) if start.get('ctor') else build(start, th)
+    except Exception as e:
+        rec.exception('ctor', e, what=f'constructing the start stream {start} raised {type(e).__name__}: {str(e)[:150]}'); return
+    partner = build(start, th, 1)
+    linked = False; rlinked = False
+    obs = None; obs_kind = None
     structural = 0; flowing2 = False
+    if start.get('phase') == 's' or 's' in start.get('phases', ''): rec.hit('phase:solid')
     if not check_views(s, rec, 'construction'): return
     for k, st in enumerate(case['steps']):
         t = st['t']
         multi = isinstance(s, tmo.MultiStream)
+        kind = 'multi' if multi else 'single'
         ids = s.chemicals.IDs
-        i = IDS[st['i']]
+        i = CIDS[st['i'] % len(CIDS)]
+        i2 = CIDS[(st['i'] + 1) % len(CIDS)]
         ph = s.phases[st['k'] % len(s.phases)] if multi else None
         where = t
+        if st.get('v') == 0 and t in ('imol', 'imass', 'ivol', 'set_flow', 'idx-units', 'arr', 'keyed', 'obs-write'): rec.hit('zero-write')
+        if obs_kind == 'flow_proxy' and t in ('phases', 'copy_like', 'mix', 'collapse', 'data', 'temporary', 'reset_flow', 'copy_flow', 'package', 'link', 'unlink'):
+            obs = None; obs_kind = None     # a flow proxy shares the data array but keeps its own phase set: a change of the phase set / data array on one side is the same exclusion as for links
         try:
             if t in ('imol', 'imass', 'ivol'):
                 idx = getattr(s, t)
@@ -136,12 +296,22 @@ def run_case(case, rec):
                 rec.check(abs(back - st['v']) <= 1e-12 * st['v'], 'round-trip', f'{t}/{"multi" if multi else "single"}', f'step {k}: wrote {st["v"]} through {t}[{i}] and read back {back}')
             elif t == 'set_flow':
                 name, f = FACT[st['units']]
-                key = i if st['key'] == 'one' else (... if st['key'] == 'all' else (i, IDS[(st['i'] + 1) % len(IDS)]))
-                n = 1 if st['key'] == 'one' else (len(ids) if st['key'] == 'all' else 2)
+                kk = st['key']
+                if kk == 'phase' and not multi: kk = 'all'
+                key = i if kk == 'one' else (... if kk in ('all', 'phase') else (i, i2))
+                n = 1 if kk == 'one' else (len(ids) if kk in ('all', 'phase') else 2)
                 data = st['v'] if n == 1 else [st['v'] * (m + 1) for m in range(n)]
                 if multi:
-                    if st['key'] == 'all': continue
-                    s.set_flow(data, st['units'], (ph, key)); back = s.get_flow(st['units'], (ph, key))
+                    if kk == 'all':
+                        # added: a write without a phase key on a multi-phase stream is a documented refusal
+                        try: s.set_flow(data, st['units'])
+                        except IndexError as e:
+                            if 'phase' not in str(e): raise
+                            rec.refuse('multi-phase write without a phase key')
+                        continue
+                    mkey = ph if kk == 'phase' else (ph, key)
+                    if kk == 'phase': rec.hit('key:phase-only')
+                    s.set_flow(data, st['units'], mkey); back = s.get_flow(st['units'], mkey)
                 else:
                     s.set_flow(data, st['units'], key); back = s.get_flow(st['units'], key)
                 back = np.asarray(back.to_array() if hasattr(back, 'to_array') else back, float)
@@ -149,12 +319,17 @@ def run_case(case, rec):
                 # reading in another unit of the same dimension = value x fixed factor ratio
                 name2, f2 = FACT[st['read']]
                 if name2 == name:
-                    other = s.get_flow(st['read'], (ph, key)) if multi else s.get_flow(st['read'], key)
+                    other = s.get_flow(st['read'], mkey) if multi else s.get_flow(st['read'], key)
                     other = np.asarray(other.to_array() if hasattr(other, 'to_array') else other, float)
                     rec.check(np.allclose(other, np.asarray(data, float) * (f2 / f), rtol=1e-9, atol=0), 'unit-factor', f'{st["units"]}->{st["read"]}',
                               f'step {k}: {data} {st["units"]} read as {other.tolist()} {st["read"]} (expected factor {f2 / f})')
                     tot = s.get_total_flow(st['read']); tot0 = s.get_total_flow(st['units'])
                     rec.check(abs(tot - tot0 * f2 / f) <= 1e-9 * abs(tot), 'unit-factor', f'total/{st["units"]}->{st["read"]}', f'step {k}: total {tot0} {st["units"]} = {tot} {st["read"]}')
+                if multi:
+                    # added: get_flow(units, IDs) without a phase on a multi-phase stream is the sum over the phases
+                    got = dense(s.get_flow(st['units'], key)); exp = sum(dense(s.get_flow(st['units'], (p, key))) for p in s.phases)
+                    rec.check(np.allclose(got, exp, rtol=1e-12, atol=0), 'phase-summed-read', f'get_flow/{name}', f'step {k}: get_flow({st["units"]}, {key}) = {got.tolist()} but the phases add up to {np.asarray(exp).tolist()}')
+                    rec.hit('key:id-only-read')
             elif t == 'F':
                 if s.F_mol == 0: continue
                 comp = np.array([r for _, r in rows_of(s)]); comp = comp / comp.sum()
@@ -176,31 +351,57 @@ def run_case(case, rec):
             elif t == 'phase':
                 if multi: continue
                 s.phase = st['v']; structural += 1; rec.hit('after:phase')
+                if st['v'] == 's': rec.hit('phase:solid')
             elif t == 'phases':
                 have = {p for p, r in rows_of(s) if r.any()}
                 target = set(st['v']) | have
-                if linked: continue      # class-changing conversion on one side of a link belongs to C12/C13 exclusions
+                if linked or rlinked: continue      # class-changing conversion on one side of a link belongs to C12/C13 exclusions
                 s.phases = tuple(target); structural += 1; rec.hit('after:phases')
+                if 's' in target: rec.hit('phase:solid')
             elif t == 'link':
                 if type(partner) is not type(s) or (multi and partner.phases != s.phases) or partner.chemicals is not s.chemicals: continue
                 s.link_with(partner, *st['flags']); linked = True; structural += 1; rec.hit('after:link')
+            elif t == 'rlink':
+                # added: the link in the other direction (the partner borrows the data of the stream under test)
+                if type(partner) is not type(s) or (multi and partner.phases != s.phases) or partner.chemicals is not s.chemicals: continue
+                partner.link_with(s, *st['flags']); rlinked = True; structural += 1; rec.hit('after:rlink')
             elif t == 'unlink':
                 s.unlink(); linked = False; structural += 1; rec.hit('after:unlink')
+                if rlinked: partner.unlink(); rlinked = False
             elif t == 'partner-write':
                 pm = isinstance(partner, tmo.MultiStream)
                 if pm: partner.imass[partner.phases[st['k'] % len(partner.phases)], i] = st['v']
                 else: partner.imass[i] = st['v']
                 partner.T = 300 + st['k'] / 3.
             elif t == 'copy_like':
-                if linked: continue
+                if linked or rlinked: continue
                 s.copy_like(partner); structural += 1; rec.hit('after:copy_like')
             elif t == 'package':
-                if linked: continue
+                if linked or rlinked: continue
                 s._reset_thermo(th2 if s._thermo is th else th); structural += 1; rec.hit('after:package')
+                obs = None     # an observer sharing the indexer of a stream whose package is reset is outside the documented use
             elif t == 'scale': s.scale(st['v'] / 100.)
             elif t == 'mix':
-                if linked: continue
+                if linked or rlinked: continue
                 s.mix_from([s, partner], energy_balance=False)
+            elif t == 'baddim' and st.get('form', 'get_total_flow') != 'get_total_flow':
+                form = st['form']; u = st['units']
+                mk = (ph, i) if multi else (i,)
+                if form == 'get_flow': call = lambda: s.get_flow(u, mk if multi else i)
+                elif form == 'set_flow': call = lambda: s.set_flow(1.0, u, mk if multi else i)
+                elif form == 'set_total_flow': call = lambda: s.set_total_flow(1.0, u)
+                elif form == 'ctor':
+                    if multi: call = lambda: tmo.MultiStream(None, l=[('Water', 1.0)], units=u, thermo=s._thermo)
+                    else: call = lambda: tmo.Stream(None, Water=1.0, units=u, thermo=s._thermo)
+                elif form == 'reset_flow':
+                    c = s.copy()       # reset_flow empties before it converts: judged on a copy, only the rejection
+                    if multi: call = lambda: c.reset_flow(units=u, l=[('Water', 1.0)])
+                    else: call = lambda: c.reset_flow(units=u, Water=1.0)
+                elif form in ('idx-get', 'view-get'): call = lambda: getattr(s, st['view']).get_data(u, *mk)
+                elif form in ('idx-set', 'view-set'): call = lambda: getattr(s, st['view']).set_data(np.float64(1.0), u, *mk)
+                else: raise ValueError(form)
+                expect_rejected(rec, k, form, u, call, s)
+                continue
             elif t == 'baddim':
                 try:
                     s.get_total_flow(st['units'])
@@ -210,7 +411,166 @@ def run_case(case, rec):
                 except Exception as e:
                     if 'dimension' in str(e).lower() or 'unit' in type(e).__name__.lower() or 'Undefined' in type(e).__name__: rec.ok('dimension-rejected'); rec.refuse(f'rejected through {type(e).__name__}')
                     else: raise
+                if st['units'] in NEAR_MISS: rec.hit('baddim:near-miss')
                 continue
+            # ---------------- added steps
+            elif t == 'idx-units':
+                view = st['view']; idx = getattr(s, view); u, u2 = st['units'], st['read']; f = FACT[u][1]; f2 = FACT[u2][1]
+                form = st['form']
+                if form == 'one': args = (ph, i) if multi else (i,); data = np.float64(st['v'])
+                elif form == 'tuple': args = (ph, (i, i2)) if multi else ((i, i2),); data = np.array([st['v'], 2 * st['v']])
+                else:
+                    args = ()
+                    shape = (len(s.phases), len(ids)) if multi else (len(ids),)
+                    data = np.array([st['v'] * (m % 3) for m in range(int(np.prod(shape)))], float).reshape(shape)
+                idx.set_data(data, u, *args)
+                back = dense(idx.get_data(u, *args)); other = dense(idx.get_data(u2, *args))
+                rec.check(back.shape == np.shape(data) and np.allclose(back, data, rtol=1e-12, atol=0), 'round-trip', f'Indexer.set_data/{view}/{form}/{kind}',
+                          f'step {k}: {view}.set_data({np.asarray(data).tolist()}, {u!r}, {args}) then get_data gives {back.tolist()}')
+                rec.check(other.shape == np.shape(data) and np.allclose(other, np.asarray(data) * (f2 / f), rtol=1e-9, atol=0), 'unit-factor', f'Indexer.get_data/{u}->{u2}',
+                          f'step {k}: {np.asarray(data).tolist()} {u} read through {view}.get_data as {other.tolist()} {u2} (expected factor {f2 / f})')
+                rec.hit('idx-units:' + form)
+            elif t == 'arr':
+                A = s[ph] if multi else s
+                if multi: rec.hit('arr:phase-view')
+                view = st['view']; form = st['form']
+                j = A.chemicals.index(i)
+                nA = len(A.chemicals.IDs)
+                if form == 'item':
+                    getattr(A, view)[j] = st['v']; back = float(getattr(A, view)[j]); data = st['v']
+                    okrt = abs(back - data) <= 1e-12 * data
+                else:
+                    data = np.array([st['v'] * (m + 1) if (m + st['k']) % 2 else 0.0 for m in range(nA)])
+                    if form == 'slice': getattr(A, view)[:] = data
+                    else: setattr(A, view, data)
+                    back = dense(getattr(A, view))
+                    okrt = back.shape == data.shape and np.allclose(back, data, rtol=1e-12, atol=0)
+                rec.check(okrt, 'round-trip', f'array-view/{view}/{form}/{"phase-view" if multi else "single"}', f'step {k}: wrote {np.asarray(data).tolist()} through stream.{view} ({form}) and read back {np.asarray(back).tolist()}')
+                rec.hit('arr:' + form)
+                if multi and not check_views(A, rec, f'{t}(phase-view)'): return
+            elif t == 'keyed':
+                view = st['view']; idx = getattr(s, view); form = st['form']
+                if form == 'id-only' and multi:
+                    try:
+                        idx[i] = st['v']
+                    except IndexError as e:
+                        if 'phase' not in str(e): raise
+                        rec.refuse('multi-phase write without a phase key')
+                    got = dense(idx[i, i2]); exp = sum(dense(idx[p, (i, i2)]) for p in s.phases)
+                    rec.check(np.allclose(got, exp, rtol=1e-12, atol=0), 'phase-summed-read', f'{view}', f'step {k}: {view}[{i}, {i2}] = {got.tolist()} but the phases add up to {np.asarray(exp).tolist()}')
+                    one = float(idx[i]); exp1 = float(sum(idx[p, i] for p in s.phases))
+                    rec.check(abs(one - exp1) <= 1e-12 * abs(exp1), 'phase-summed-read', f'{view}/one', f'step {k}: {view}[{i}] = {one} but the phases add up to {exp1}')
+                    rec.hit('key:id-only-read')
+                else:
+                    if form == 'phase' and not multi: form = 'ellipsis'
+                    if form == 'id-only': form = 'tuple'
+                    if form == 'tuple': key = (ph, (i, i2)) if multi else (i, i2); data = np.array([st['v'], 2 * st['v']])
+                    elif form == 'ellipsis': key = (ph, ...) if multi else ...; data = np.array([st['v'] * ((m + st['k']) % 3) for m in range(len(ids))], float)
+                    else: key = ph; data = np.array([st['v'] * ((m + st['k']) % 3) for m in range(len(ids))], float)
+                    idx[key] = data
+                    back = dense(idx[key])
+                    rec.check(back.shape == data.shape and np.allclose(back, data, rtol=1e-12, atol=0), 'round-trip', f'{view}/key-{form}/{kind}', f'step {k}: wrote {data.tolist()} through {view}[{key}] and read back {back.tolist()}')
+                    rec.hit({'tuple': 'key:tuple', 'ellipsis': 'key:ellipsis', 'phase': 'key:phase-only'}[form])
+            elif t == 'F0':
+                which = st['which']
+                if which == 'set_total': s.set_total_flow(0.0, st['units']); back = s.get_total_flow(st['units'])
+                else: setattr(s, which, 0.0); back = getattr(s, which)
+                left = [v for _, r in rows_of(s) for v in r if v]
+                rec.check(back == 0 and not left, 'round-trip', f'{which}/zero', f'step {k}: total set to 0 through {which} reads back {back} and leaves flows {left}')
+                rec.hit('total:zero')
+            elif t == 'F-empty':
+                s.empty()
+                if not check_views(s, rec, 'empty'): return
+                rec.hit('total:on-empty')
+                which = st['which']
+                # a positive total on an empty stream has no composition to scale: documented refusal (AttributeError 'undefined composition', counted below)
+                if which == 'set_total': s.set_total_flow(st['v'], st['units'])
+                else: setattr(s, which, st['v'])
+            elif t == 'collapse':
+                if not multi or linked or rlinked: continue
+                form = st['form']
+                if form == 'phase=': s.phase = st['p']
+                elif form == 'phases=1': s.phases = (st['p'],)
+                elif form == 'as_stream':
+                    try: s.as_stream()
+                    except RuntimeError as e:
+                        if 'multiple phases' not in str(e): raise
+                        rec.refuse('as_stream with several phases present'); continue
+                else: s.reduce_phases()
+                structural += 1
+                if not isinstance(s, tmo.MultiStream): rec.hit('after:collapse')
+                where = f'collapse:{form}'
+            elif t == 'observer':
+                okind = st['kind']
+                if okind == 'view' and not multi: okind = 'proxy'
+                if okind == 'proxy': obs = s.proxy()
+                elif okind == 'flow_proxy': obs = s.flow_proxy()
+                elif okind == 'copy': obs = s.copy()
+                else: obs = s[ph]
+                obs_kind = okind
+                rec.hit('observer:' + okind)
+            elif t == 'obs-write':
+                if obs is None: continue
+                view = st['view']; idx = getattr(obs, view)
+                if isinstance(obs, tmo.MultiStream):
+                    op = obs.phases[st['k'] % len(obs.phases)]
+                    idx[op, i] = st['v']; back = idx[op, i]
+                else: idx[i] = st['v']; back = idx[i]
+                rec.check(abs(back - st['v']) <= 1e-12 * st['v'], 'round-trip', f'{view}/observer:{obs_kind}', f'step {k}: wrote {st["v"]} through {obs_kind}.{view}[{i}] and read back {back}')
+                rec.hit('observer-write')
+            elif t == 'copy_flow':
+                if linked or rlinked: continue
+                form = st['form']
+                if multi:
+                    # MultiStream.copy_flow indexes the other stream by this stream's phases: only offered sources whose phases it holds
+                    pm = isinstance(partner, tmo.MultiStream)
+                    if (pm and partner.phases != s.phases) or (not pm and partner.phase not in s.phases): continue
+                try:
+                    if form == 'all': s.copy_flow(partner)
+                    elif form == 'one': s.copy_flow(partner, IDs=i)
+                    else: s.copy_flow(partner, IDs=i, exclude=True)
+                except ValueError as e:
+                    if 'same chemicals' not in str(e): raise
+                    rec.refuse('copy_flow between property packages (multi-phase)'); continue
+                rec.hit('after:copy_flow')
+            elif t == 'data':
+                if linked or rlinked: continue
+                d = s.get_data()
+                s.T = s.T + 7.
+                if multi: s.imass[ph, i] = st['v']
+                else: s.imass[i] = st['v']
+                if not check_views(s, rec, 'get_data'): return
+                s.set_data(d)
+                structural += 1; rec.hit('after:set_data'); where = 'set_data'
+            elif t == 'temporary':
+                if linked or rlinked: continue
+                with s.temporary(T=st['T']):
+                    if not check_views(s, rec, 'temporary(inside)'): return
+                structural += 1; rec.hit('after:temporary')
+            elif t == 'tmp-phase':
+                if multi: continue
+                with s.temporary_phase(st['p']):
+                    rec.check(s.phase == st['p'], 'views', 'temporary_phase/phase', f'step {k}: inside temporary_phase({st["p"]!r}) the phase is {s.phase!r}')
+                    if not check_views(s, rec, 'temporary_phase(inside)'): return
+                structural += 1; rec.hit('after:temporary_phase')
+            elif t == 'reset_flow':
+                if linked or rlinked: continue
+                u = st['units']; dim = FACT[u][0]
+                if i2 == i: continue
+                tot = 3.5 * st['v'] if st['total'] else None
+                if multi:
+                    s.reset_flow(units=u, total_flow=tot, **{ph: [(i, st['v']), (i2, 2 * st['v'])]})
+                    back = dense(s.get_flow(u, (ph, (i, i2))))
+                else:
+                    kw = {'phase': st['p']} if st['p'] else {}
+                    s.reset_flow(units=u, total_flow=tot, **kw, **{i: st['v'], i2: 2 * st['v']})
+                    back = dense(s.get_flow(u, (i, i2)))
+                exp = np.array([st['v'], 2 * st['v']]) * (1.0 if tot is None else tot / (3 * st['v']))
+                rec.check(np.allclose(back, exp, rtol=1e-10, atol=0), 'round-trip', f'reset_flow{"-total" if tot else ""}/{dim}/{kind}', f'step {k}: reset_flow(units={u!r}, total_flow={tot}, {i}={st["v"]}, {i2}={2 * st["v"]}) reads back {back.tolist()} {u}, expected {exp.tolist()}')
+                if tot is not None:
+                    bt = s.get_total_flow(u)
+                    rec.check(abs(bt - tot) <= 1e-10 * tot, 'round-trip', f'reset_flow-total/{dim}/{kind}/total', f'step {k}: reset_flow(total_flow={tot}, units={u!r}) has total {bt} {u}')
+                structural += 1; rec.hit('after:reset_flow')
         except AttributeError as e:
             if 'undefined composition' in str(e): rec.refuse('undefined composition'); continue
             rec.exception(t, e, what=f'step {k} {st} raised AttributeError: {str(e)[:150]}'); return
@@ -219,6 +579,7 @@ def run_case(case, rec):
         if isinstance(s, tmo.MultiStream): rec.hit('multi-phase')
         if not check_views(s, rec, where): return
         if not check_views(partner, rec, f'{t}(partner)'): return
+        if obs is not None and not check_views(obs, rec, f'{t}(observer:{obs_kind})'): return
         e = stream_invariant(s)
         if e: rec.check(False, 'invariant', t, f'step {k}: {e}'); return
         if sum(1 for _, r in rows_of(s) for v in r if v) >= 2: flowing2 = True
